@@ -96,6 +96,10 @@ fn pascal(s: &str) -> String {
 
 fn gen_ty15(rng: &mut Rng, depth: usize, customs: &[String], optional_ok: bool, inline_ok: bool) -> GTy {
     if depth == 0 || rng.chance(2, 5) {
+        // the empty inline struct `()`: the value set of `[string]()`, a marker field, a method that takes "nothing"
+        if inline_ok && rng.chance(1, 14) {
+            return GTy::Struct(Vec::new());
+        }
         return match rng.below(if customs.is_empty() { 5 } else { 7 }) {
             0 => GTy::Bool,
             1 => GTy::Int,
